@@ -1525,7 +1525,7 @@ def gen_write_spec(rng):
                     ends[role] = None
                 else:
                     ends[role] = rng.randrange(len(nodes))
-            ns = rng.choice(nss) if rng.random() < 0.85 else rng.choice(
+            ns = rng.choice(nss) if rng.random() < 0.35 else rng.choice(
                 [nodes[i][0] for i in ends.values() if i is not None] or nss)
             iid = 'w%d' % (len(created) if rng.random() < 0.85 else rng.randrange(len(created) + 1))
             ops.append(['create', ns, a[0], ends, iid])
@@ -1694,6 +1694,14 @@ def write_k(run):
         if mo != outs or mp != final:
             run.disagree({'write_spec': spec}, {'outs': mo, 'repo': mp}, {'outs': outs, 'repo': final},
                          'Create/Modify/DeleteInstance of association instances')
+        # the hypotheses and the conclusion of C13_write_history_keeps_discipline_partial on this history
+        # (stores of model and real code agree, see above): how often the request conditions hold, and that
+        # the discipline then holds on the final stores
+        run.count('discipline:initial_%s' % ans.get('winv0'))
+        run.count('discipline:histok_%s:final_%s' % (ans.get('histok'), ans.get('winv')))
+        if ans.get('winv0') and ans.get('histok') and not ans.get('winv'):
+            run.disagree({'write_spec': spec}, {'winv': ans.get('winv')}, {'expected': True},
+                         'shadow-copy discipline lost although the request conditions held (contradicts the theorem)')
         for sig, case, obs in viol:
             run.violate(sig, case, obs)
 
